@@ -74,7 +74,7 @@ def dotted(node):
 
 
 def local_names(node):
-    names = set(a.arg for a in node.args.args + node.args.kwonlyargs)
+    names = set(a.arg for a in node.args.args + node.args.kwonlyargs + getattr(node.args, "posonlyargs", []))
     if node.args.vararg:
         names.add(node.args.vararg.arg)
     if node.args.kwarg:
@@ -82,34 +82,87 @@ def local_names(node):
     for n in ast.walk(node):
         if isinstance(n, ast.Name) and isinstance(n.ctx, ast.Store):
             names.add(n.id)
+        elif isinstance(n, (ast.Import, ast.ImportFrom)):
+            for al in n.names:
+                names.discard((al.asname or al.name).split(".")[0])   # a function-level import is not a value of the caller
     return names
 
 
-def touches(fn):
-    """sorted distinct primitive touches of a function body (see module docstring)"""
+def _is_exception_class(name):
+    import builtins
+    v = getattr(builtins, name, None)
+    return isinstance(v, type) and issubclass(v, BaseException)
+
+
+def touches(fn, owner=None, module=None, stop=(), _seen=None):
+    """Normalised primitive touches of a function body, robust against refactoring that keeps behaviour:
+
+      * locals and parameters (whatever their names) are `<var>`; a call of one, or of a call result, is `<call>`;
+        a method call on one is `.method`; `self` is the first parameter of a method, whatever it is called;
+      * calls of methods of the same class (`self.helper(...)`) and of functions of the same module are FOLLOWED
+        transitively and not listed, unless named in `stop` (then listed as `self.name` / `name`): extracting or inlining
+        a private helper changes nothing;
+      * exception constructors are not calls; `raise Cls(...)` is `raise:Cls`; `raise <local>` is `raise:<var>`; a bare
+        `raise` (re-raise, e.g. the no-op `try: ... except Exception: raise`) is nothing;
+      * `if <local>:` / `while <local>:` / `<local> and ...` truth tests of a bare local are `truth:<var>`;
+      * `x[...]` on a `self.<attr>` or module attribute is `index:<dotted>`; `*x` / `**x` in a call are `<splat>` / `<kwsplat>`;
+      * statement order, elif-vs-early-return, docstrings, comments do not matter (it is a set).
+    """
+    _seen = _seen if _seen is not None else set()
+    key = getattr(fn, "__qualname__", repr(fn))
+    if key in _seen:
+        return set()
+    _seen.add(key)
     node = func_ast(fn)
-    locs = local_names(node) - {node.args.args[0].arg if node.args.args else "self"}
+    is_method = "." in getattr(fn, "__qualname__", "") and "<locals>" not in fn.__qualname__.split(".")[-2:]
+    selfname = node.args.args[0].arg if (is_method and node.args.args) else None
+    locs = local_names(node) - {selfname}
     out = set()
+
+    def follow(target):
+        out.update(touches(target, owner, module, stop, _seen))
+
     for stmt in node.body:
         for n in ast.walk(stmt):
             if isinstance(n, ast.Call):
-                d = dotted(n.func)
+                f = n.func
+                d = dotted(f)
                 if d is None:
-                    out.add("<call:expr>")
+                    out.add("<call>")
                 elif d in locs:
-                    out.add("<call:var>")
+                    out.add("<call>")
                 else:
-                    root = d.split(".")[0]
-                    out.add(("<var>." + d.split(".", 1)[1]) if root in locs and "." in d else d)
-                for a in list(n.args) + [k for k in n.keywords if k.arg is None]:
+                    parts = d.split(".")
+                    root = parts[0]
+                    if root in locs:
+                        out.add("." + parts[-1])
+                    elif selfname is not None and root == selfname and len(parts) == 2:
+                        target = inspect.getattr_static(owner, parts[1], None) if owner is not None else None
+                        target = getattr(target, "__func__", target)
+                        if parts[1] not in stop and inspect.isfunction(target):
+                            follow(target)
+                        else:
+                            out.add("self." + parts[1])
+                    elif selfname is not None and root == selfname:
+                        out.add("self." + ".".join(parts[1:]))
+                    elif len(parts) == 1:
+                        target = getattr(module, root, None) if module is not None else None
+                        if root not in stop and inspect.isfunction(target) and target.__module__ == module.__name__:
+                            follow(target)
+                        elif not _is_exception_class(root):
+                            out.add(root)
+                    else:
+                        out.add(d)
+                for a in n.args:
                     if isinstance(a, ast.Starred):
                         out.add("<splat>")
-                    elif isinstance(a, ast.keyword):
+                for k in n.keywords:
+                    if k.arg is None:
                         out.add("<kwsplat>")
             elif isinstance(n, ast.Raise):
                 if n.exc is None:
-                    out.add("raise")
-                elif isinstance(n.exc, ast.Name) and n.exc.id in locs:
+                    continue
+                if isinstance(n.exc, ast.Name) and n.exc.id in locs:
                     out.add("raise:<var>")
                 else:
                     d = dotted(n.exc.func) if isinstance(n.exc, ast.Call) else dotted(n.exc)
@@ -120,28 +173,26 @@ def touches(fn):
                     out.add("truth:<var>")
             elif isinstance(n, ast.Subscript) and isinstance(n.ctx, ast.Load):
                 d = dotted(n.value)
-                if d is not None and d.split(".")[0] not in locs and d != "self._config":
-                    out.add("index:" + d)
+                if d is not None and d.split(".")[0] not in locs:
+                    parts = d.split(".")
+                    if selfname is not None and parts[0] == selfname:
+                        if parts[1:] != ["_config"]:
+                            out.add("index:self." + ".".join(parts[1:]))
+                    elif len(parts) > 1:
+                        out.add("index:" + d)
             elif isinstance(n, ast.Delete):
                 for t in n.targets:
-                    out.add("del:" + (dotted(t) or "<expr>"))
-    return sorted(out)
+                    d = dotted(t)
+                    if d and selfname is not None and d.split(".")[0] == selfname:
+                        out.add("del:self." + ".".join(d.split(".")[1:]))
+    return out
 
 
-def reads(fn):
-    """sorted distinct `self.<attr>` and `<module>.<attr>` reads (non-call position included)"""
-    node = func_ast(fn)
-    locs = local_names(node) - {node.args.args[0].arg if node.args.args else "self"}
-    out = set()
-    for stmt in node.body:
-        for n in ast.walk(stmt):
-            if isinstance(n, ast.Attribute):
-                d = dotted(n)
-                if d and d.split(".")[0] not in locs:
-                    out.add(".".join(d.split(".")[:2]))
-            elif isinstance(n, ast.Name) and isinstance(n.ctx, ast.Load) and n.id not in locs:
-                out.add(n.id)
-    return sorted(out)
+# the functions whose calls are LISTED (they are modelled as such), everything else private is followed
+CONN_STOP = ("_access_attr", "_check_attr", "_cleanup", "sync_request", "async_request", "_async_request", "_box", "_unbox",
+             "_send", "close", "_netref_factory", "_box_exc", "_unbox_exc", "_dispatch_request", "_seq_request_callback",
+             "_send_exception", "_resolve_local_refs", "serve", "poll")
+NETREF_STOP = ("_make_method", "NetrefClass", "syncreq", "asyncreq")
 
 
 def handler_params(fn, mname):
@@ -207,37 +258,25 @@ def gen_handlers():
     rows.sort()
     L += ["/-- `Connection._request_handlers()`: handler id ↦ method name (live class) -/",
           "def handlerTable : List (Nat × String) := " + lean_list(("(%d, %s)" % (k, lean_str(n)) for k, n in rows), 3)]
-    # ---- parameters
+    # ---- parameters (positions only: the wire carries positions, parameter names are not behaviour) and touches
     prows, trows = [], []
     for mname in sorted(n for n in vars(protocol.Connection) if n.startswith("_handle_")):
         fn = vars(protocol.Connection)[mname]
         if not inspect.isfunction(fn):
             raise Inexpressible("%s is not a plain function" % mname)
         ps = handler_params(fn, mname)
-        prows.append("(%s, %s)" % (lean_str(mname), lean_list(
-            ("(%s, %s)" % (lean_str(n), lean_bool(d)) for n, d in ps), 8)))
-        trows.append("(%s, %s)" % (lean_str(mname), lean_list((lean_str(t) for t in touches(fn)), 6)))
-    L += ["", "/-- parameters after `self` of every `_handle_*` (name, has a default) — `inspect.signature` -/",
-          "def handlerParams : List (String × List (String × Bool)) := " + lean_list(prows, 1),
-          "", "/-- primitive touches in the body of every `_handle_*` (AST): callee names, `<call:var>` = call of a",
-          "parameter/local, `<call:expr>` = call of a call result, `raise…`, `truth:<var>`, `<splat>` -/",
+        prows.append("(%s, %d, %d)" % (lean_str(mname), len([1 for _n, d in ps if not d]), len(ps)))
+        t = touches(fn, protocol.Connection, protocol, CONN_STOP)
+        trows.append("(%s, %s)" % (lean_str(mname), lean_list((lean_str(x) for x in sorted(t)), 6)))
+    L += ["", "/-- every `_handle_*`: (name, number of required positional parameters after self, number of parameters after self) -/",
+          "def handlerArity : List (String × Nat × Nat) := " + lean_list(prows, 3),
+          "", "/-- normalised primitive touches of every `_handle_*` (AST, private helpers followed, locals anonymous; see",
+          "harness/gen_handlers.py `touches`) -/",
           "def handlerTouches : List (String × List String) := " + lean_list(trows, 1)]
-    # ---- anchored control functions
-    arows = []
-    for a in ANCHORS:
-        fn = vars(protocol.Connection).get(a)
-        if not inspect.isfunction(fn):
-            raise Inexpressible("Connection.%s is missing or not a plain function" % a)
-        arows.append("(%s, %s, %s)" % (lean_str(a), lean_list((lean_str(t) for t in touches(fn)), 6),
-                                      lean_list((lean_str(t) for t in reads(fn)), 6)))
-    arows.append("(%s, %s, %s)" % (lean_str("vinegar.load"), lean_list((lean_str(t) for t in touches(vinegar.load)), 6),
-                                  lean_list((lean_str(t) for t in reads(vinegar.load)), 6)))
-    L += ["", "/-- what `netref.class_factory` calls and which names it reads (AST): name resolution is `sys.modules.get` +",
-          "`getattr` only - nothing that imports -/",
-          "def classFactoryCalls : List String := " + lean_list((lean_str(t) for t in touches(netref.class_factory)), 6),
-          "def classFactoryReads : List String := " + lean_list((lean_str(t) for t in reads(netref.class_factory)), 6)]
-    L += ["", "/-- (function, touches, names read) of the dispatch / boxing / policy / loader code (AST) -/",
-          "def anchorFacts : List (String × List String × List String) := " + lean_list(arows, 1)]
+    L += ["", "/-- what `netref.class_factory` does, helpers followed: name resolution is `sys.modules.get` + `getattr` only -",
+          "nothing that imports -/",
+          "def classFactoryCalls : List String := " + lean_list(
+              (lean_str(t) for t in sorted(touches(netref.class_factory, None, netref, NETREF_STOP))), 6)]
     # ---- configuration
     cfg = protocol.DEFAULT_CONFIG
     L += ["", "/-! ### `protocol.DEFAULT_CONFIG` (live dict) -/"]
